@@ -82,6 +82,13 @@ Theorem C03_proto_anchors :
 Proof. exact proto_anchors. Qed.
 Print Assumptions C03_proto_anchors.
 
+(* the full IANA list (Spec/Cisco.v, 145 numbers): the variant declared with discriminant n carries
+   the IANA keyword of protocol number n, for every n in 0..144 *)
+Theorem C03_proto_table :
+  forallb (fun a => String.eqb (variant_name proto_variants (N.of_nat (fst a))) (snd a)) iana_protocols = true.
+Proof. vm_compute. reflexivity. Qed.
+Print Assumptions C03_proto_table.
+
 (* the known finding is real: the three numbers do get the wrong name *)
 Theorem C03_proto_refuted : forall n, K_C03_proto n = true -> proto_name_ok n = false.
 Proof. exact proto_refuted. Qed.
